@@ -283,6 +283,7 @@ func propC07(w *World, r *Report, tier string) {
 		r.Expect("step.snow3g", 3)
 		r.Expect("drv.snow3g", 1)
 		r.Expect("drv.zuc", 1)
+		r.Expect("pure.no-state", 6)
 		r.Expect("iv.nia", 2)
 		r.Expect("mac.nia", 23)
 		r.Expect("wrap.args", 12)
@@ -293,6 +294,8 @@ func propC07(w *World, r *Report, tier string) {
 	checkZucSteps(c)
 	checkSnowDriver(c, 5)
 	checkZucDriver(c, 4)
+	checkCipherCallers(c)
+	checkCipherPurity(c, [][2]string{{"security", "NASMacCalculate"}, {"security", "NIA1"}, {"security", "NIA2"}, {"security", "NIA3"}, {"security/snow3g", "GetKeyStream"}, {"security/zuc", "Zuc"}})
 	checkGF64(c)
 	checkNIA(c, tier)
 	checkWrapper(c, "NASMacCalculate", map[int]string{1: "NIA1", 2: "NIA2", 3: "NIA3"}, 4)
